@@ -182,6 +182,9 @@ func engineRT(rep *Report) {
 	hi := uint64(si+1) * (1 << 32) / uint64(sn)
 	bad := 0
 	for x := lo; x < hi && bad < 5; x++ {
+		if x&0x3fffff == 0 {
+			setProgress(-3, int(x>>22), 5) // (the sweeps are long: keep the progress record moving for the watchdog)
+		}
 		if !rtCheckSizes(rep, x) || !rtCheckSizes(rep, x<<32) || !rtCheckSizes(rep, x<<32|0xffffffff) {
 			bad++
 		}
@@ -196,7 +199,10 @@ func engineRT(rep *Report) {
 	}
 	bad = 0
 	cnt := int64(0)
-	for x := lo; x < hi && bad < 5; x += stride {
+	for k, x := uint64(0), lo; x < hi && bad < 5; k, x = k+1, x+stride {
+		if k&0xfffff == 0 {
+			setProgress(-4, int(k>>20), 6)
+		}
 		off := 10 + int(x%11)
 		if !rtCheckEncode(rep, x, off) || !rtCheckEncode(rep, x<<31, off) {
 			bad++
